@@ -257,6 +257,21 @@ class Dim:
     def __repr__(self):
         return self.name
 
+    # the code compares an array size with a number: a size-dependent path.  It cannot be executed for a symbolic size; the constant is recorded so
+    # that the obligation's bounded fall-back can run the real code at sizes on both sides of it.
+    def _size_test(self, op, other):
+        if isinstance(other, (int, float)) and not isinstance(other, bool):
+            SIZE_THRESHOLDS.append((self.name, op, other))
+        raise OutsideSubset("the code branches on the size of dimension %s (%s %r): a size-dependent path is outside the shape-polymorphic engine" % (self.name, op, other))
+
+    def __gt__(self, o): return self._size_test(">", o)
+    def __ge__(self, o): return self._size_test(">=", o)
+    def __lt__(self, o): return self._size_test("<", o)
+    def __le__(self, o): return self._size_test("<=", o)
+
+
+SIZE_THRESHOLDS = []
+
 
 def dim_size(d):
     return d.n if isinstance(d, Dim) else z3.IntVal(d)
@@ -906,6 +921,14 @@ class SymNumpy:
         if spec.replace(" ", "") != "...ii->...i":
             raise OutsideSubset("einsum %r" % spec)
         return DiagView(x)
+
+    def errstate(self, **kw):
+        """floating-point warning control has no effect on values"""
+        import contextlib
+        return contextlib.nullcontext()
+
+    def seterr(self, **kw):
+        return {}
 
     def __getattr__(self, name):
         extra = self.__dict__.get("extra", {})
